@@ -2,7 +2,18 @@
    Statements about Model/Handler.v (validated against the real handler by the correspondence run of
    ./check C19; the harness monitor checks the nonce multiset per decrypting key on the wire).
    A message nonce is (counter, r): the 4 counter bytes and the interned 8 random bytes.
-   Every theorem is closed by [exact] of a lemma of Proofs/HandlerB_*.v. *)
+   Every theorem is closed by [exact] of a lemma of Proofs/HandlerB_*.v.
+
+   Sessions expire (LruTimeCache): a session carries the time of its last use ([s_used]);
+   [sess_expired c se] = the session has been idle for longer than [cfg_session_ttl c] at the clock
+   reading [cfg_clock c]; a lookup ([sess_get c]) removes an expired session and finds nothing, and
+   Handler::new_session first purges the expired sessions at the front of the cache
+   ([remove_expired_sessions c], reported as HandlerOut::ExpiredSessions).  [step c h e now d] runs
+   with the clock set to [now].  So a session object - and with it its counter - can now also end
+   by expiry; the counter statements below say for each case what happens: while the object lives its
+   counter never decreases; when it is replaced, the replacement holds only keys derived in the
+   handshake that created it (never installed before under [fresh_installs]), so a counter that
+   restarts at 0 restarts under new keys. *)
 From Coq Require Import List NArith Bool.
 From Discv5V Require Import Model.Handler Proofs.HandlerB_Base Proofs.HandlerB_Frame Proofs.HandlerB_Session
   Proofs.HandlerB_Auth Proofs.HandlerB_Step Proofs.HandlerB_Nonce Proofs.HandlerB_Examples.
@@ -52,44 +63,97 @@ Proof. exact counter_nonces_distinct_u32. Qed.
 Print Assumptions C19_counter_nonces_distinct_u32.
 
 (* rekey_keeps_counter: Session::update inside new_session installs the new keys in the existing session
-   object, remembers the previous ones and keeps the counter; what follows (replay of the active
-   requests, release of queued requests) only increases it. *)
+   object, remembers the previous ones and keeps the counter (and the time stamp); what follows (replay
+   of the active requests, release of queued requests) only increases it ([Quiet]).
+   new_session looks the session up AFTER purging the expired sessions, with the lookup that itself
+   drops an expired entry: the hypothesis is that this lookup finds a session [cs] (the stored one,
+   stamped with the current time).  The other case - the lookup finds nothing: there was no session
+   under [na], or it had expired - does not go through Session::update: [se] is inserted as a new
+   session object (counter 0, only the new keys); see C19_new_session_expired_restarts. *)
 Theorem C19_rekey_keeps_counter :
   forall c s na se skip now h1 cs,
-  sess_get (hs s) na = (h1, Some cs) ->
+  sess_get c (hs (remove_expired_sessions c s)) na = (h1, Some cs) ->
   exists s1,
     hs s1 = sess_put h1 na {| s_enc := s_enc se; s_dec := s_dec se; s_old := Some (s_enc cs, s_dec cs);
-                              s_await := s_await se; s_counter := s_counter cs |} /\
+                              s_await := s_await se; s_counter := s_counter cs; s_used := s_used cs |} /\
     Quiet s1 (new_session c s na se skip now).
 Proof. exact rekey_keeps_counter. Qed.
 Print Assumptions C19_rekey_keeps_counter.
 
+(* the same in terms of the state before new_session.  Case 1: the session stored under [na] has not
+   expired - the session under [na] afterwards has a counter at least as large. *)
 Theorem C19_new_session_counter :
   forall c s na se skip now cs se',
   SessUniq (hs s) ->
   alist_get na (sessions (hs s)) = Some cs ->
+  sess_expired c cs = false ->
   In (na, se') (sessions (hs (new_session c s na se skip now))) ->
   s_counter cs <= s_counter se'.
 Proof. exact new_session_counter. Qed.
 Print Assumptions C19_new_session_counter.
 
+(* Case 2: the stored session has expired - it is purged, and the session under [na] afterwards is a new
+   object that descends from [se] ([sess_desc se se']: every key of se' - current or previous - is a key
+   of se, counter not below that of se).  Its counter restarts (every caller of new_session - the accepted
+   handshake packet, the answered WHOAREYOU - passes a session with counter 0), but it
+   holds NONE of the keys of the expired session: the old counter values were used under other keys.
+   (If no session is stored under [na] there is no earlier counter to compare with.) *)
+Theorem C19_new_session_expired_restarts :
+  forall c s na se skip now cs se',
+  SessUniq (hs s) ->
+  alist_get na (sessions (hs s)) = Some cs ->
+  sess_expired c cs = true ->
+  In (na, se') (sessions (hs (new_session c s na se skip now))) ->
+  sess_desc se se'.
+Proof. exact new_session_expired_restarts. Qed.
+Print Assumptions C19_new_session_expired_restarts.
+
 (* counter_monotone: in every step, the counter of the session stored under a node address does not
-   decrease while the entry persists (a session that is removed and later re-created starts at 0 again -
-   with new keys, see C01_step_sessions).  SessUniq (at most one session per node address) holds in
-   every reachable state. *)
+   decrease while the session object persists.  Without expiry "an entry before and an entry after the
+   step" meant the same object; with expiry one step can also REPLACE the object: typically the stored
+   session has expired and the step is a handshake (accepted handshake packet or answered WHOAREYOU) for
+   that node address - new_session purges the expired session and inserts a new one.  Whatever the
+   reason the old object is gone, a replacement is always of this kind.  That is the second disjunct:
+   [installed_by c s0 e na se0] - the event e, handled in the state s0 left by the implicit tick,
+   installs under na the session se0 with counter 0, no previous keys, and exactly the two keys derived
+   in this handshake (the description of C01_step_sessions: for a handshake packet, establish returned
+   EstOk se0 for the outstanding challenge of na; for a WHOAREYOU, the keys are built from the drawn
+   ephemeral key and the packet's challenge data) - and the session after the step descends from se0
+   ([sess_desc]: no other keys).  So the counter may restart only together with a change of ALL keys
+   of the session.  SessUniq (at most one session per node address) holds in every reachable state. *)
 Theorem C19_counter_monotone :
   forall c h e now d na se se',
   SessUniq h ->
   alist_get na (sessions h) = Some se ->
   alist_get na (sessions (fst (step c h e now d))) = Some se' ->
-  s_counter se <= s_counter se'.
+  s_counter se <= s_counter se' \/
+  (exists se0, installed_by c (tick c h now d) e na se0 /\ sess_desc se0 se').
 Proof. exact counter_monotone. Qed.
 Print Assumptions C19_counter_monotone.
 
+(* the same for every session of the new state, whether or not one was stored under its address before:
+   it continues a session of the old state under the same address (counter not smaller), or it was
+   created by this step's handshake (there was none before, or the one before had expired and was
+   purged) and holds nothing but the keys just derived *)
+Theorem C19_counter_monotone_step :
+  forall c h e now d na se',
+  In (na, se') (sessions (fst (step c h e now d))) ->
+  (exists se, In (na, se) (sessions h) /\ s_counter se <= s_counter se') \/
+  (exists se0, installed_by c (tick c h now d) e na se0 /\ sess_desc se0 se').
+Proof. exact counter_monotone_step. Qed.
+Print Assumptions C19_counter_monotone_step.
+
+(* along a run, while the session object persists: an entry under na exists after every step
+   ([run_states]) and no step of the run installs a session under na ([run_installs c h evs na]: for some
+   step (e, now, d) of the run, [installed_by c (tick c hi now d) e na se0] holds for some se0, hi being
+   the state the step starts in).  The other case - some step does install a session under na - is the
+   second disjunct of C19_counter_monotone at that step: from there on the entry is a new object
+   with new keys, to which this theorem applies again. *)
 Theorem C19_counter_monotone_run :
   forall c evs h na se se',
   SessUniq h ->
   (forall hi, In hi (run_states c h evs) -> alist_get na (sessions hi) <> None) ->
+  ~ run_installs c h evs na ->
   alist_get na (sessions h) = Some se ->
   alist_get na (sessions (fst (run c h evs))) = Some se' ->
   s_counter se <= s_counter se'.
@@ -174,6 +238,37 @@ Example C19_example_fresh_run :
   fresh_installs ex_cfg init_state [] evs_both /\ NoReuse (concat (snd (run ex_cfg init_state evs_both))).
 Proof. split; [exact evs_both_fresh | exact evs_both_no_reuse]. Qed.
 Print Assumptions C19_example_fresh_run.
+
+(* ------------------------------------------------------------------------------------------ *)
+(* example for the two cases of new_session (C19_new_session_counter / C19_new_session_expired_restarts):
+   the session of the example state, counter 1, last used at time 13, ttl 1000000.  Re-keyed at time 14
+   it is alive: the object is kept - counter 1, the previous keys remembered, nothing reported.
+   Re-keyed at time 2000000 it has expired: it is purged (ExpiredSessions), and the session stored
+   afterwards is a new object - counter 0, no previous keys. *)
+Definition ex_rekey : session :=
+  {| s_enc := mk_key 9 1 6 7 1 true; s_dec := mk_key 9 1 6 7 1 false; s_old := None; s_await := None;
+     s_counter := 0; s_used := 0 |}.
+Definition ex_rekey_at (t : N) : st :=
+  new_session (with_clock ex_cfg t) {| hs := h_session; dr := nod; outs := [] |} (7, 100) ex_rekey None t.
+Example C19_example_expiry :
+  let cs := {| s_enc := mk_key 3 1 5 7 1 true; s_dec := kd7; s_old := None; s_await := None; s_counter := 1;
+               s_used := 13 |} in
+  SessUniq h_session /\ alist_get (7, 100) (sessions h_session) = Some cs /\
+  (sess_expired (with_clock ex_cfg 14) cs = false /\
+   sessions (hs (ex_rekey_at 14)) =
+     [((7, 100), {| s_enc := s_enc ex_rekey; s_dec := s_dec ex_rekey; s_old := Some (mk_key 3 1 5 7 1 true, kd7);
+                    s_await := None; s_counter := 1; s_used := 14 |})] /\
+   outs (ex_rekey_at 14) = []) /\
+  (sess_expired (with_clock ex_cfg 2000000) cs = true /\
+   sessions (hs (ex_rekey_at 2000000)) =
+     [((7, 100), {| s_enc := s_enc ex_rekey; s_dec := s_dec ex_rekey; s_old := None;
+                    s_await := None; s_counter := 0; s_used := 2000000 |})] /\
+   outs (ex_rekey_at 2000000) = [OEvent (HExpiredSessions [(7, 100)])]).
+Proof.
+  cbv zeta. split; [exact (run_SessUniq ex_cfg [ev_unknown; ev_whoareyou; ev_handshake; ev_response]) |].
+  split; [exact h_session_has_session |]. vm_compute. repeat split.
+Qed.
+Print Assumptions C19_example_expiry.
 
 (* ------------------------------------------------------------------------------------------ *)
 (* example: the session created by the handshake has counter 0; the response is encrypted with nonce
